@@ -113,6 +113,8 @@ def run(ctx, res):
         except Unmodelled as ex:
             res.unmodelled(d, str(ex))
             continue
+        from ..core import arithmetic
+        arithmetic(res, I, d)
         oks = [(s, v.fields["0"]) for s, k, v in outs if k == "val" and isinstance(v, StructV) and v.variant == "Ok"]
         analysed[d] = {"outcomes": len(outs), "ok": len(oks)}
         if not oks:
